@@ -883,7 +883,8 @@ def _binding_sources(fn: ast.AST) -> Dict[str, List[ast.expr]]:
     out: Dict[str, List[ast.expr]] = {}
 
     def names_of(t: ast.AST) -> List[str]:
-        return [x.id for x in ast.walk(t) if isinstance(x, ast.Name)]
+        # only names that are actually (re)bound: `a[i] = v` binds neither `a` nor `i`
+        return [x.id for x in ast.walk(t) if isinstance(x, ast.Name) and isinstance(getattr(x, "ctx", None), ast.Store)]
 
     for n in ast.walk(fn):
         if isinstance(n, ast.Assign):
@@ -935,7 +936,8 @@ def _binding_sources_kinded(fn: ast.AST) -> Dict[str, List[Tuple[ast.expr, bool]
     out: Dict[str, List[Tuple[ast.expr, bool]]] = {}
 
     def names_of(t: ast.AST) -> List[str]:
-        return [x.id for x in ast.walk(t) if isinstance(x, ast.Name)]
+        # only names that are actually (re)bound: `a[i] = v` binds neither `a` nor `i`
+        return [x.id for x in ast.walk(t) if isinstance(x, ast.Name) and isinstance(getattr(x, "ctx", None), ast.Store)]
 
     for n in ast.walk(fn):
         if isinstance(n, ast.Assign):
